@@ -110,7 +110,7 @@ theorem step_lk (cfg : Cfg) (s : St) (e : Ev) (hs : s.stopping = true) (hst : s.
     · (first | exact same | simp [hs])
     · cases r with
       | err e => exact via (LK_andThen (rejoinAfterError_lk cfg { s with jpc := .idle } e) (fun _ => LK_frame rfl rfl rfl rfl)) rfl rfl rfl rfl
-      | ok m g l n => simp only [hs, if_true]; (first | exact same | simp [hs])
+      | ok m g l n => simp only [abandonHb_eq, andThen_fst, hs, if_true]; (first | exact same | simp [hs])
   | partsDone r =>
     simp only [step]; split
     · cases r with
